@@ -1,4 +1,5 @@
 """C09 — line numbers reported with tokens match the source (DESIGN 4.C09)."""
+import re
 from lib import machine as mc
 from lib.mir import AnchorMissing, callee_is
 from . import mirq, tokrules as tr
@@ -234,7 +235,34 @@ def r09_6(ctx):
     ctx.floor("R09.6", "simd-scan-paths", n, 4)
 
 
+def reconsume_not_recounted(ctx):
+    """get_char with the reconsume flag set hands back the character that was already read - and already counted if it was a line
+    break - as it is: it does not go through get_preprocessed_char (which counts line feeds and folds CR) a second time"""
+    for which in ("html", "xml"):
+        T = ctx.tables(which)
+        rows = T["helpers"].get("get_char")
+        if not rows:
+            raise AnchorMissing("get_char not tabulated (%s)" % which)
+        bad = None
+        n = 0
+        for pc in rows:
+            if not any(v is True and re.sub(r"\.get\(\)$", "", k) == "self.reconsume" for k, v in pc["guards"].items()):
+                continue
+            n += 1
+            names = [a for a, _ in pc["actions"]]
+            extra = [a for a in names if a not in ("set self.reconsume",)]
+            if extra or "current_char" not in str(pc["ret"]) or "get_preprocessed_char" in str(pc["ret"]):
+                bad = "with the reconsume flag set get_char does %s and answers %s: a reconsumed line break is counted twice (and a reconsumed CR is folded again)" % (extra[:3], str(pc["ret"])[:60])
+        if which == "xml" and n == 0:
+            continue
+        ctx.ob("R09.7", "reconsumed-character-not-recounted/" + which, bad is None and n >= 1, bad or "reconsume: flag cleared, the stored character handed back untouched", "%s tokenizer get_char" % which)
+
+
 def run(ctx):
+    ctx.rule("R09.7", "a pending CR's line feed is skipped (uncounted) only together with clearing the flag, on every path that saw it - also when the chunk ends there (R03.3); "
+                      "a character that is reconsumed is handed back as it is, without being counted again")
+    ctx.guard("R09.7", "ignore_lf-consumed", lambda: tr.ignore_lf_consumed_when_seen(ctx, "R09.7", "html"))
+    ctx.guard("R09.7", "reconsume", lambda: reconsume_not_recounted(ctx))
     ctx.rule("R09.6", "SIMD data-state scan (SSE2 and NEON): the newline tally of an iteration covers exactly the bytes the index advances over; normal forms of the SIMD functions equal the reviewed reference")
     ctx.guard("R09.6", "simd", lambda: r09_6(ctx))
     ctx.guard("R09.6", "nf-simd", lambda: nf_common.nf_rule(ctx, "R09.6", "html_tokenizer_simd", floor=3))
